@@ -214,6 +214,14 @@ def items(tier):
         for rev in (True, False):
             out.append((sp, {"rule": "TSLACK", "due": False, "rev": rev, "absence": [], "max_time": F.seq_bound(sp) + 12}))
         out.append((sp, {"rule": "TSLACK", "due": False, "rev": True, "absence": [0, 1], "max_time": F.seq_bound(sp) + 12}))
+    # workplaces of a user subclass that compares docks by name (__eq__ without __hash__: unhashable), other ways of building the object graph
+    for sp0 in F.fac_specs("quick"):
+        if sp0["label"] in ("fac:2:per-task:two-conveyor:plain:both", "fac:2:shared:one-cap2:plain:both"):
+            for rev in (True, False):
+                out.append((dict(sp0, eq_workplaces=True), {"rule": "TSLACK", "due": False, "rev": rev, "absence": [], "max_time": F.seq_bound(sp0) + 12}))
+    for sp in F.usage_specs():
+        if "parent-child:one-cap1" not in sp["label"] and ("bottom-up:fac" not in sp["label"] or sp["label"].endswith("two:both")):
+            out.append((sp, {"rule": "TSLACK", "due": False, "rev": True, "absence": [], "max_time": F.seq_bound(sp) + 12}))
     # a backward run that asked for automatic tasks to go on during absence, followed by a forward run that leaves the keyword out
     for sp in F.auto_component_specs()[:: (2 if tier == "quick" else 1)] + [c08.base_models()[2]]:
         for ab in ([1], [0, 2], [2, 3]):
